@@ -47,4 +47,16 @@ def select (c : Clauses) (l : List α) : List α :=
   | Option.none, some n => l'.take n
   | Option.none, Option.none => l'
 
+/-! ### the quantifier of a set operation (`translate_set_ops_pipeline`): `UNION ALL` keeps duplicates; the de-duplicating form
+is spelled `UNION DISTINCT` only where the dialect flag `set_ops_distinct` says the engine knows that spelling, otherwise the
+bare `UNION` (which de-duplicates by default) -/
+
+inductive SetQuant | distinct | bare | all
+  deriving DecidableEq, Repr
+
+def setQuantifier (setOpsDistinct distinct : Bool) : SetQuant :=
+  if distinct then (if setOpsDistinct then .distinct else .bare) else .all
+
+def setQuantifierFor (d : Dialect) (distinct : Bool) : SetQuant := setQuantifier d.set_ops_distinct distinct
+
 end Model.Clause
